@@ -30,7 +30,7 @@ func (c04) Rule() string {
 }
 func (c04) Assumptions() []string {
 	return []string{"outside the domain and never generated: nil maps, []byte, ',string', user MarshalJSON types without TypeSchemas, nil embedded pointers, pointer-receiver marshalers held by value in non-addressable positions, NaN/Inf, time.Time years outside 0..9999",
-		"pinned known findings (not generated): JSON-name collisions between differently named fields and Go-shadowed fields with another JSON name (KF-C04-1), typeless TypeSchemas entries behind a pointer (KF-C04-2), big.Int (KF-C04-3); embedded structs with their own json name tag, embedded non-struct types and tag names encoding/json rejects are ambiguous and not generated"}
+		"pinned known findings (not generated): JSON-name collisions between differently named fields and Go-shadowed fields with another JSON name (KF-C04-1), typeless TypeSchemas entries behind a pointer (KF-C04-2), big.Int (KF-C04-3); tag names encoding/json rejects are not generated"}
 }
 
 func customOpts() *jsonschema.ForOptions {
@@ -79,6 +79,9 @@ func inferAndResolve(c *fw.Case, t reflect.Type, opts *jsonschema.ForOptions) (*
 func (c04) Run(c *fw.Case) {
 	r := c.R
 	t, opts, label := pickType(c, false)
+	if c.Idx%4 == 1 {
+		decoyInfer(c, t) // call history: the same type inferred with other options first
+	}
 	s, rs, ok := inferAndResolve(c, t, opts)
 	if !ok {
 		return
